@@ -327,6 +327,9 @@ func (en *DefaultEngine) runFirst(ctx context.Context) (bool, error) {
 		return true, nil
 	}
 	logg.DebugCtxf(ctx, "start pre-VM check")
+	if en.st.Depth() >= state.MaxLevel {
+		return false, fmt.Errorf("max levels exceeded (%d)", state.MaxLevel)
+	}
 	en.ca.Push()
 	rs := resource.NewMenuResource()
 	rs.AddLocalFunc("_first", en.first)
